@@ -44,3 +44,18 @@ add("C24", "exploration", "vh",
     "exhaustive small-scope tree enumeration with sharing and mixed atom representations",
     "Every tree of three tree spaces in 3 sharing modes x 3 atom representations is interned; serialization and hash must be preserved, atoms pairwise byte-distinct and exactly the set of distinct atom values, pairs pairwise distinct and exactly the set of distinct sub-trees, counts <= source; intern_tree_limited is run with every heap limit 0..=need+1.",
     "The model (sets of canonical serializations) is computed on the pure tree; larger trees than the scopes are not covered.")
+
+add("C12", "model_checking", "vh",
+    "explicit-state BFS over allocator API histories on the real Allocator with a heap-only reference model in lock-step",
+    "Breadth-first search from Allocator::new(): every operation of a ~60-250 operation alphabet (all substr bounds, concat lists, both checkpoint kinds, value-preserving restore, ghost counters, all integer constructors) is applied to the real allocator in every reached state (states de-duplicated by the complete internal fingerprint from hook H1); after every transition atom_count/pair_count/heap_size must equal a heap-only reference allocator. Depth 3 (full alphabet) + depth 4 (thinned) in quick, 4 + 5 in thorough.",
+    "Trusts the 3-counter reference model in allocmc.rs. Histories longer than the depth bound and atoms outside the alphabet are not covered. One classified defect (substr of an in-place atom) is a known finding identified by (parent bytes, start, end).")
+
+add("C13", "model_checking", "vh",
+    "explicit-state BFS from pre-loaded allocator states (every distance from each cap, every small heap limit) with an exact failure oracle",
+    "The allocator BFS is started from new_limited(h) for every h in 1..=6|12 and from allocators pre-loaded with ghost atoms/pairs at every distance 0..=2|4 from the 62,500,000 caps (and all caps at once); an operation must fail with the matching error iff the reference model would exceed that cap, a failed call must leave the complete internal state unchanged, and no count may exceed its cap in any reached state.",
+    "Part (b) of the design (k-th allocation fails inside real programs) is explored by C25/C03's program runs, not here. Known findings: substr of an in-place atom bypasses the heap limit; new_limited(0) is over its limit at construction.")
+
+add("C14", "model_checking", "vh",
+    "allocator BFS with a content oracle + exhaustive enumeration of short byte strings and integers",
+    "(a) in every state of the allocator BFS every handle still valid per the model (also after restores to later checkpoints) must read back its recorded bytes/children through every read API, and atom_eq must equal byte equality on every pair of live atoms; (b) fits_in_small_atom/small_number/new_atom on every byte string up to 3 bytes, 4-byte lattices and a 5-letter alphabet up to 6 bytes in inline and heap form; all integer constructors on every integer in +-2^14|2^17 and +-2^k+-d up to 2^120 against an independent minimal encoder.",
+    "Trusts the minimal-encoding oracle in tree.rs (int_bytes).")
